@@ -108,7 +108,7 @@ class Driver(object):
             return 'PRINT %s%s' % (arg, '' if a['nl'] else ';')
         if op == 'locate':
             r, c = a['r'], a['c']
-            return 'LOCATE %s%s' % (r if r else '', (',%d' % c) if c else (',' if not r else ''))
+            return 'LOCATE %s%s' % (r if r != -1 else '', (',%d' % c) if c != -1 else (',' if r == -1 else ''))
         if op == 'cls':
             return 'CLS'
         if op == 'viewprint':
@@ -173,13 +173,11 @@ def random_history(d, rng, adapter, nsteps):
             a = {'op': 'print', 's': random_string(rng, w, o['col']), 'nl': rng.random() < 0.5}
         elif k < 0.75:
             if rng.random() < 0.8:
-                r = rng.choice([0, 1, o['top'], o['bot'], h - 1, h, rng.randint(1, h), rng.randint(1, h)])
-                c = rng.choice([0, 1, w, w - 1, rng.randint(1, w), rng.randint(1, w)])
+                r = rng.choice([-1, 1, o['top'], o['bot'], h - 1, h, rng.randint(1, h), rng.randint(1, h)])
+                c = rng.choice([-1, 1, w, w - 1, rng.randint(1, w), rng.randint(1, w)])
             else:
-                r = rng.choice([h + 1, 26, 255, 0, 1])
-                c = rng.choice([w + 1, 81, 255, 0, 1])
-            if r == 0 and c == 0:
-                c = 1
+                r = rng.choice([h + 1, 26, 255, 0, 1, -1])
+                c = rng.choice([w + 1, 81, 255, 0, 1, -1])
             a = {'op': 'locate', 'r': r, 'c': c}
         elif k < 0.80:
             a = {'op': 'cls'}
@@ -300,5 +298,5 @@ def run(ctx):
                  'col_is_width': e.get('c') == before['w']},
             data={'event': {k: e[k] for k in e if k != 'obs'}, 'obs': {k: o[k] for k in o if k != 'rows'},
                   'before': {k: before[k] for k in before if k not in ('rows',)}, 'history': hist[-40:]})
-    if nscroll == 0 or novf == 0:
-        raise core.MachineryError('vacuous: no scrolling / no overflow position reached')
+    if nscroll == 0:
+        raise core.MachineryError('vacuous: no statement scrolled the screen')
